@@ -747,9 +747,9 @@ def syntax_mutants(rng, text):
 
 
 def context_with_hole(gen, rng, d):
-    """A tree with one hole ('hole',) at a position that every evaluation strategy reaches before anything can fail
-    elsewhere is not needed: all other sub-expressions are fault-free; the hole is never below the right operand of
-    '&&' / '||' (a short-circuiting implementation would be allowed to skip it)."""
+    """A tree with one hole ('hole',): all other sub-expressions are fault-free, and the hole is never below the right
+    operand of '&&' / '||' (a short-circuiting implementation would be allowed to skip it), so every evaluation strategy
+    must reach the fault injected into the hole."""
     hole = ('hole',)
     t = hole
     for _ in range(d):
